@@ -49,7 +49,7 @@ fn inputs(secret: &BigUint, ext: &BigUint, id: &BigUint, x: &BigUint) -> Circuit
     ci.secret = secret.clone();
     ci.ext = ext.clone();
     ci.id = id.clone();
-    ci.limit = big(100);
+    ci.limit = if *id < big(100) { big(100) } else { big(65536) };
     ci.x = x.clone();
     ci
 }
@@ -105,11 +105,13 @@ impl C03 {
             "all-zero" => (mk(&big(0), &big(0), &big(0)), mk(&big(0), &big(0), &big(0)), false),
             "x-zero-and-p-minus-1" => (mk(&big(5), &big(0), &big(3)), mk(&big(5), &(p() - big(1)), &big(3)), false),
             "different-external-nullifier" => (mk(&big(5), &big(9), &big(10)), mk(&big(6), &big(8), &big(11)), true),
+            "external-nullifiers-differ-in-high-bytes-only" => (mk(&(big(5) + pow2(100)), &big(9), &big(10)), mk(&(big(5) + pow2(100) + pow2(200)), &big(8), &big(11)), true),
+            "external-nullifiers-differ-in-low-byte-only" => (mk(&(pow2(250) + big(5)), &big(9), &big(10)), mk(&(pow2(250) + big(6)), &big(8), &big(11)), true),
             _ => return out,
         };
         let r = recover(rln, &m1, &m2);
         match which {
-            "different-external-nullifier" => {
+            "different-external-nullifier" | "external-nullifiers-differ-in-high-bytes-only" | "external-nullifiers-differ-in-low-byte-only" => {
                 let _ = expect_empty_ok;
                 if r != Rec::Bytes(vec![]) {
                     out.push(Discrepancy { key: format!("C03/crafted/{which}/{}", if matches!(r, Rec::Panic(_)) { "panic" } else { "reports-something" }), case, detail: format!("recovery across different external nullifiers must succeed with no output, got {:?}", short(&r)) });
@@ -219,7 +221,8 @@ impl Prop for C03 {
         secrets.push(rng.field());
         secrets.extend(limb_patterns(ctx.seed));
         let exts = vec![big(0), big(1), p() - big(1), rng.field()];
-        let ids = vec![big(0), big(1), big(99)];
+        let ids = vec![big(0), big(1), big(99), big(255), big(256), big(65535)];
+        // related shares: x2 = -x1, x2 = 2*x1, x2 = x1 + 1, for every x of the boundary alphabet
         let signals: Vec<Vec<u8>> = vec![vec![], b"a".to_vec(), b"b".to_vec(), vec![b'a'; 136], vec![b'a'; 137]];
         let xs_sig: Vec<BigUint> = signals.iter().map(|s| keccak::hash_to_field(s)).collect();
         let xs_f = fstar();
@@ -246,6 +249,14 @@ impl Prop for C03 {
                 }
             }
         }
+        for s in secrets.iter().take(if q { 4 } else { secrets.len() }) {
+            for a in xs_f.iter().chain(limb_patterns(ctx.seed).iter()) {
+                for b in [fneg(a), fmul(a, &big(2)), fadd(a, &big(1)), fmul(a, &((p() + big(1)) / big(2)))] {
+                    tuples.push((s.clone(), exts[3].clone(), big(1), a.clone(), b.clone(), "related-x-pair"));
+                    tuples.push((s.clone(), exts[3].clone(), big(1), b, a.clone(), "related-x-pair"));
+                }
+            }
+        }
         let res = par_map(&tuples, ncpu(), |_, t| with_rln(|rln| self.pair(rln, &t.0, &t.1, &t.2, &t.3, &t.4, t.5)));
         let mut evals = tuples.len();
         for r in res {
@@ -266,7 +277,7 @@ impl Prop for C03 {
                 }
             }
         }
-        for w in ["same-x-different-y", "same-x-same-y", "all-zero", "x-zero-and-p-minus-1", "different-external-nullifier"] {
+        for w in ["same-x-different-y", "same-x-same-y", "all-zero", "x-zero-and-p-minus-1", "different-external-nullifier", "external-nullifiers-differ-in-high-bytes-only", "external-nullifiers-differ-in-low-byte-only"] {
             findings.report_all(with_rln(|rln| self.crafted(rln, w)));
             evals += 1;
         }
